@@ -284,6 +284,14 @@ func Run(c *common.Ctx) error {
 	if err := dropDuringCommit(c, c.Rng.Fork()); err != nil {
 		return err
 	}
+	if err := dropNeverWritten(c, c.Rng.Fork()); err != nil {
+		return err
+	}
+	for jm := 0; jm < 3; jm++ {
+		if err := dropWaitsForWriter(c, c.Rng.Fork(), jm); err != nil {
+			return err
+		}
+	}
 	for _, ps := range [][2]int{{4096, 1024}, {512, 4096}, {1024, 1024}} {
 		if err := snapshotAcrossDrop(c, c.Rng.Fork(), ps[0], ps[1]); err != nil {
 			return err
@@ -447,6 +455,148 @@ func dropDuringCommit(c *common.Ctx, r *common.Rand) error {
 		for i := 1; i < len(infos); i++ {
 			if infos[i].Min != infos[i-1].Max+1 || infos[i].Pre != infos[i-1].Post {
 				c.Violate("C15:drop-during-commit:chain", fmt.Sprintf("the log is not one chain: %s does not continue %s", infos[i].Name, infos[i-1].Name), rep)
+				break
+			}
+		}
+	}
+	return nil
+}
+
+// dropNeverWritten: "create ... drop" with nothing written in between - an application creates the database file and
+// removes it again (touch, rm) - at the very start and again between two lives of the database. The drop is a
+// transaction like any other (position + 1, empty checksum, files gone, replicas follow), and the log continues.
+func dropNeverWritten(c *common.Ctx, r *common.Rand) error {
+	dir, err := os.MkdirTemp(c.OutDir, "c15n-")
+	if err != nil {
+		return err
+	}
+	defer os.RemoveAll(dir)
+	clu := cluster.New(dir, 2*time.Second)
+	defer clu.Close()
+	p, err := clu.Start("p", true)
+	if err != nil {
+		return err
+	}
+	if clu.WaitPrimary(5*time.Second) == nil {
+		return fmt.Errorf("no primary")
+	}
+	r1, err := clu.Start("r1", false)
+	if err != nil {
+		return err
+	}
+	rep := map[string]any{"kind": "drop-never-written"}
+	ctx := context.Background()
+	emptyDrop := func(what string) bool {
+		before := dbPos(p.Store)
+		db, f, err := p.Store.CreateDB("db")
+		if err != nil {
+			c.Violate("C15:never-written:create", fmt.Sprintf("%s: the database cannot be created: %v", what, err), rep)
+			return false
+		}
+		_ = f.Close()
+		derr := db.Drop(ctx)
+		c.Evaluations++
+		c.Distinct("never-written:" + what)
+		after := dbPos(p.Store)
+		if derr != nil {
+			c.Violate("C15:never-written:drop", fmt.Sprintf("%s: a database that was created and never written cannot be removed: %v (position (%d,%016x), files left: %v)", what, derr, after.TXID, after.Chk, filesPresent(p.Dir)), rep)
+			return false
+		}
+		if after.TXID != before.TXID+1 || after.Chk != lfs.ChecksumFlag {
+			c.Violate("C15:never-written:position", fmt.Sprintf("%s: the drop moved the position from (%d,%016x) to (%d,%016x); want TXID+1 with the empty checksum", what, before.TXID, before.Chk, after.TXID, after.Chk), rep)
+			return false
+		}
+		if fp := filesPresent(p.Dir); len(fp) > 0 {
+			c.Violate("C15:never-written:files-left", fmt.Sprintf("%s: after the drop the primary still has %v", what, fp), rep)
+			return false
+		}
+		if !cluster.WaitPos(r1, "db", after.TXID, after.Chk, 10*time.Second) {
+			c.Violate("C15:never-written:replica", fmt.Sprintf("%s: the replica did not reach the drop position (%d,%016x); at %v exits=%v", what, after.TXID, after.Chk, dbPos(r1.Store), r1.Exits()), rep)
+			return false
+		}
+		if fp := filesPresent(r1.Dir); len(fp) > 0 {
+			c.Violate("C15:never-written:replica-files", fmt.Sprintf("%s: the replica has %v after the drop", what, fp), rep)
+			return false
+		}
+		return true
+	}
+	if !emptyDrop("first life") {
+		return nil
+	}
+	ps := []int{512, 4096}[r.Intn(2)]
+	h := hist.NewOn(c, r.Fork(), hist.Config{PageSize: ps}, p.Store, p.Exits, "db", &lfs.Image{PageSize: ps}, dbPos(p.Store).TXID, false)
+	if !commitN(h, 2) {
+		last := h.Obs[len(h.Obs)-1]
+		c.Violate("C15:never-written:recreate", fmt.Sprintf("after the drop of a never-written database writes are refused: %s%s", last.Err, last.Panic), rep)
+		return nil
+	}
+	if pp := dbPos(p.Store); pp.TXID != 3 || !cluster.WaitPos(r1, "db", pp.TXID, pp.Chk, 10*time.Second) {
+		c.Violate("C15:never-written:continues", fmt.Sprintf("after the drop (1) and two transactions the primary is at %v and the replica at %v; want TXID 3 on both", pp, dbPos(r1.Store)), rep)
+		return nil
+	}
+	if ob := h.Exec(hist.Step{Op: "drop"}); ob.Err != "" || ob.Panic != "" {
+		c.Violate("C15:never-written:drop-written", "drop failed: "+ob.Err+ob.Panic, rep)
+		return nil
+	}
+	emptyDrop("between two lives")
+	return nil
+}
+
+// dropWaitsForWriter: the database is removed while a connection is in the middle of a write transaction: the drop
+// waits for the write lock, the transaction commits, then the drop runs. Both are transactions: the position advances
+// by two, the log is one chain that ends with the drop.
+func dropWaitsForWriter(c *common.Ctx, r *common.Rand, jmode int) error {
+	dir, err := os.MkdirTemp(c.OutDir, "c15w-")
+	if err != nil {
+		return err
+	}
+	defer os.RemoveAll(dir)
+	n, err := lfs.Open(dir, true)
+	if err != nil {
+		return err
+	}
+	defer n.Close()
+	h := hist.NewOn(c, r.Fork(), hist.Config{PageSize: 512}, n.Store, n.Exits, "db", &lfs.Image{PageSize: 512}, 0, false)
+	if !commitN(h, 2) {
+		return fmt.Errorf("setup commits failed")
+	}
+	db := n.Store.DB("db")
+	before := db.Pos()
+	dropDone := make(chan error, 1)
+	h.Pager.BeforeCommit = func() {
+		// the writer has written its pages and is about to finalise its journal: the unlink arrives now and waits
+		go func() { dropDone <- db.Drop(context.Background()) }()
+		time.Sleep(150 * time.Millisecond)
+	}
+	ob := h.Exec(hist.Step{Op: "rtx", Writes: map[uint32]uint64{2: 4242}, NewSize: uint32(len(h.Ref.Pages)), JMode: jmode})
+	h.Pager.BeforeCommit = nil
+	var derr error
+	select {
+	case derr = <-dropDone:
+	case <-time.After(10 * time.Second):
+		derr = fmt.Errorf("the drop did not return within 10 s")
+	}
+	c.Evaluations++
+	c.Distinct(fmt.Sprintf("drop-waits-for-writer:%d", jmode))
+	rep := map[string]any{"kind": "drop-waits-for-writer", "journal_mode": jmode, "commit_error": ob.Err, "drop_error": fmt.Sprint(derr)}
+	if ob.Err != "" || ob.Panic != "" || derr != nil {
+		c.Count("drop_waits_for_writer_not_both", 1) // one of the two was refused: nothing to compare
+		return nil
+	}
+	pos := db.Pos()
+	infos, _ := lfs.ListLTX(filepath.Join(n.Dir, "dbs", "db"))
+	sort.SliceStable(infos, func(i, j int) bool { return infos[i].Min < infos[j].Min })
+	switch {
+	case len(n.Exits()) > 0:
+		c.Violate("C15:drop-waits:exit", fmt.Sprintf("the node called Exit(%v)", n.Exits()), rep)
+	case pos.TXID != before.TXID+2 || uint64(pos.PostApplyChecksum) != lfs.ChecksumFlag:
+		c.Violate("C15:drop-waits:position", fmt.Sprintf("a transaction committed while the drop was waiting for the write lock, then the drop ran: the position went from %s to %s; want transaction %d with the empty checksum", before, pos, before.TXID+2), rep)
+	case len(infos) == 0 || infos[len(infos)-1].Max != uint64(pos.TXID) || infos[len(infos)-1].Commit != 0:
+		c.Violate("C15:drop-waits:log", fmt.Sprintf("the log does not end with the drop at the position %s", pos), rep)
+	default:
+		for i := 1; i < len(infos); i++ {
+			if !infos[i].Valid || infos[i].Min != infos[i-1].Max+1 || infos[i].Pre != infos[i-1].Post {
+				c.Violate("C15:drop-waits:chain", fmt.Sprintf("the log is not one chain: %s does not continue %s", infos[i].Name, infos[i-1].Name), rep)
 				break
 			}
 		}
